@@ -9,6 +9,7 @@
   `NUMPY_TO_DAP2_TYPEMAP` says (`printDs d = .ok s` means every dtype is in the table).
 -/
 import Proofs.DdsFixpoint
+import Proofs.DdsSamples
 namespace Pydap.C07
 open Pydap Pydap.Dds
 
@@ -78,37 +79,30 @@ theorem C07_print_parse_print_refuted :
     subst this
     exact seqArrayWitness_not_fixpoint (by rw [h2, hp])
 
-/-! ### non-vacuity -/
+/-- Foreign style.  Any DDS written by the second, independent printer `ftextDs`
+    (`PydapModel/DdsForeign.lean`: keywords and type names in any letter case, `Url`/`Int`/`UInt` or any
+    other spelling the parser table knows, every dimension anonymous `[n]` or named `[d = n]`, arbitrary
+    whitespace — spaces, tabs, newlines, none — between tokens except after a variable name) parses to
+    exactly the structure it declares (`declDs`: same kinds, names, order; parser dtype of the declared
+    type; declared extents; the names of the named dimensions). -/
+theorem C07_foreign (d : FDataset) (hwf : FWFds d) : parseDds (ftextDs d) = .ok (declDs d) :=
+  foreign_parse d hwf
 
-/-- a dataset with a quoted name, a named 2-d array, an unnamed 1-d array, a structure, a sequence column
-    and a grid is in the domain of every theorem above -/
-def sample : Dataset :=
-  ⟨"my%20ds".toList,
-   [.base ⟨"a%20b".toList, ['f'], [2, 3], ["x".toList, "y".toList]⟩,
-    .base ⟨['c'], ['i'], [4], []⟩,
-    .struct ['S'] [.base ⟨['u'], ['U'], [2], []⟩],
-    .seq ['Q'] [.base ⟨['i'], ['h'], [7], []⟩],
-    .grid ['G'] [⟨"arr".toList, ['d'], [2], [['x']]⟩, ⟨['x'], ['d'], [2], [['x']]⟩]]⟩
+/-! ### non-vacuity (samples and their well-formedness proofs: `Proofs/DdsSamples.lean`) -/
 
-example : WFds sample := by
-  simp [WFds, sample, WFL, WFT, BaseOk, NameOk, Tmpl.name]
-  decide
-
-example : ColsL sample.kids 0 := by
-  simp [sample, ColsL, ColsT, ColsB]
-
-example : ∃ s, printDs sample = .ok s := by
-  have l1 : lookup Gen.NUMPY_TO_DAP2_TYPEMAP (dtypeChar ['f']) = some "Float32".toList := by decide
-  have l2 : lookup Gen.NUMPY_TO_DAP2_TYPEMAP (dtypeChar ['i']) = some "Int32".toList := by decide
-  have l3 : lookup Gen.NUMPY_TO_DAP2_TYPEMAP (dtypeChar ['U']) = some "String".toList := by decide
-  have l4 : lookup Gen.NUMPY_TO_DAP2_TYPEMAP (dtypeChar ['h']) = some "Int16".toList := by decide
-  have l5 : lookup Gen.NUMPY_TO_DAP2_TYPEMAP (dtypeChar ['d']) = some "Float64".toList := by decide
-  simp [sample, printDs, printL, printT, printGrid, printBases, printBase, l1, l2, l3, l4, l5]
+-- a dataset with a quoted name, a named 2-d array, an unnamed 1-d array, a structure, a sequence column
+-- and a grid is in the domain of `C07_parse_print`, `C07_fixpoint_partial`, `C07_print_parse_print_partial`
+example : WFds sample ∧ ColsL sample.kids 0 ∧ ∃ s, printDs sample = .ok s :=
+  ⟨sample_wf, sample_cols, sample_prints⟩
 
 example : ∃ b : BaseV, (b.dims = [] ∨ b.dims.length = b.shape.length) ∧ b.shape.length = 1 :=
   ⟨⟨['c'], ['i'], [4], []⟩, Or.inl rfl, rfl⟩
 
--- the witness of the refuted statements is itself well-formed and prints
+-- mixed-case keywords, Url/Int, anonymous and named dimensions, tabs/newlines/no whitespace: in the domain
+-- of `C07_foreign`
+example : FWFds fsample := fsample_wf
+
+-- the witness of the refuted statements is itself well-formed
 example : WFds seqArrayWitness := seqArrayWitness_wf
 
 end Pydap.C07
